@@ -197,7 +197,7 @@ def run(tier, seed):
             chk.add_kernel(run_kernel(k, tier))
     except ImportError:
         pass
-    n = 16 if tier == "quick" else 160
+    n = 16 if tier == "quick" else 800
     res = [x for r in harness.pmap(_work, [(seed, i) for i in range(n)]) for x in r]
     fails = [r for r in res if r[0] != "ok"]
     seen = set()
